@@ -146,11 +146,60 @@ def leader_boundaries(n_att=3, n_ch=2, map_proj=True, fac_len=(100, 200, 300, 40
     return out
 
 
-def volume(n_fp=4):
-    v = _rec(360)
+def volume(n_fp=4, names=None, sizes=None, pid="WBDR1.1__D"):
+    """volume directory as delivered: every record carries its usual text (a record decoded as a
+    record of another kind, or a record taken from the wrong place, then shows in the tree)"""
+    v = _rec(360, seq=1, codes=(192, 192, 18, 18))
+    _putl(v, (12, 2), "A")
+    _putl(v, (16, 12), "CEOS-SAR")
+    _putl(v, (28, 2), "A")
+    _putl(v, (30, 2), "A")
+    _putl(v, (32, 12), "001.001")
+    _putl(v, (44, 16), "PHYS-VOL-0001")
+    _putl(v, (60, 16), "LOGI-VOL-0002")
+    _putl(v, (76, 16), "ALOS2-VOLSET")
+    for off, val in ((92, 1), (94, 1), (96, 1), (98, 1)):
+        _put(v, (off, 2), val)
+    for off, val in ((100, 1), (104, 1), (108, 1)):
+        _put(v, (off, 4), val)
     _put(v, VD_CREATION, "2020022912345678")
+    _putl(v, (128, 12), "JAPAN")
+    _putl(v, (140, 8), "JAXA")
+    _putl(v, (148, 12), "SCMO")
     _put(v, VD_N_FILE_POINTERS, n_fp)
-    parts = [v] + [_rec(360) for _ in range(n_fp)] + [_rec(360)]
+    _put(v, (164, 4), 1)
+    parts = [v]
+    for k in range(n_fp):
+        f = _rec(360, seq=k + 2, codes=(219, 192, 18, 18))
+        name = (names[k] if names else "FILE%02d" % k)
+        size = (sizes[k] if sizes else 720)
+        _putl(f, (12, 2), "A")
+        _put(f, (16, 4), k + 1)
+        _putl(f, (20, 16), name[:16])
+        kind = name[:3]
+        _putl(f, (36, 28), {"LED": "SAR LEADER FILE", "IMG": "IMAGERY OPTIONS FILE",
+                            "TRL": "SAR TRAILER FILE"}.get(kind, "VOLUME DIRECTORY FILE"))
+        _putl(f, (64, 4), {"LED": "SARL", "IMG": "IMOP", "TRL": "SART"}.get(kind, "VOLD"))
+        _putl(f, (68, 28), "MIXED BINARY AND ASCII")
+        _putl(f, (96, 4), "MBAA")
+        _put(f, (100, 8), k + 2)
+        _put(f, (108, 8), 720)
+        _put(f, (116, 8), min(size, 99999999))
+        _putl(f, (124, 12), "VARIABLE LEN")
+        _putl(f, (136, 4), "VARE")
+        _put(f, (140, 2), 1)
+        _put(f, (142, 2), 1)
+        _put(f, (144, 8), 1)
+        _put(f, (152, 8), k + 2)
+        parts.append(f)
+    t = _rec(360, seq=n_fp + 2, codes=(18, 63, 18, 18))
+    _putl(t, (12, 2), "A")
+    _putl(t, (16, 40), "PRODUCT:" + pid)
+    _putl(t, (56, 60), "PROCESS:JAPAN-JAXA-ALOS2-SCMO 20200229 123456")
+    _putl(t, (116, 40), "TAPE ID:PHYS-VOL-0001")
+    _putl(t, (156, 40), "ORBIT:" + SCENE)
+    _putl(t, (196, 40), "FRAME:RSP123 0730")
+    parts.append(t)
     return b"".join(bytes(p) for p in parts)
 
 
@@ -299,6 +348,22 @@ def _style_prefix(r, i, n_px, level, style, prng):
         else:
             v = prng.randrange(1, 4 * n + 2)
         r[12:16] = struct.pack(">I", v)
+    rn = style.get("record_numbers", "normal")
+    if rn != "normal":
+        # the record sequence number of the 12-byte preamble (no reader of pixels or per-line
+        # metadata depends on it): gaps (records dropped by a subsetter), restarts, zero, arbitrary
+        per = max(style.get("period", 3), 1)
+        if rn == "gap":
+            v = i + 2 + (i + per - 1) // per      # a number is skipped after lines 0, per, 2 per ...
+        elif rn == "gap-once":
+            v = i + 2 + (1 if i >= per else 0)
+        elif rn == "restart":
+            v = i % per + 2
+        elif rn == "zero":
+            v = 0
+        else:
+            v = prng.randrange(2**31)
+        r[0:4] = struct.pack(">I", v)
 
 
 def make_truth(level, lines, pixels, data_seed, mode, n_special):
@@ -364,11 +429,13 @@ def build(plan):
         p.planted[name] = planted
         p.images.append(name)
     names = [vol, led] + p.images + [trl]
-    p.files[vol] = volume(len(names))
     p.files[led] = leader(n_att=plan.get("n_att", 3), n_ch=plan.get("n_ch", 2),
                           map_proj=plan.get("map_proj", True),
                           fac_len=tuple(plan.get("fac_len", (100, 200, 300, 400))))
     p.files[trl] = b" " * 720
+    p.files[vol] = b""
+    p.files[vol] = volume(len(names), names, [len(p.files[n]) if n != vol else 360 * (len(names) + 2)
+                                              for n in names], pid)
     p.vol, p.led, p.trl = vol, led, trl
     tag = SUMMARY_TAG[level]
     lines = ['Odi_SceneId="x"', f'Scs_SceneID="{SCENE}"', 'Scs_SceneShift="0"',
@@ -486,6 +553,8 @@ def gen_plan(rng, max_lines=40, max_pixels=32, max_images=8, level=None, big=Fal
         "trailing": rng.choice([None] * 7 + ["short", "records", "block"]),
         "lines_per_burst": rng.choice([None, None, 2, 3, 5]) if scansar else None,
         "burst_overlap": rng.choice([0, 0, 1]),
+        "record_numbers": rng.choice(["normal"] * 5 + ["gap", "gap-once", "restart", "zero",
+                                                      "random"]),
     }
     # acquisition time base: mostly mid-day, sometimes crossing midnight inside the image
     n_max = max(im["lines"] for im in images)
